@@ -55,6 +55,12 @@ pub fn program(template: u8, n: usize) -> String {
             names.join(" ^ ")
         ),
         4 => format!("pub fn main({}) -> u8 {{ ({}) | a0 }}", args.join(", "), names.join(" & ")),
+        // near misses (C16): 10 and 11 consist of the same characters and differ only in where the
+        // line break after a `//` comment falls - 10 computes the XOR of all inputs, 11 returns a0;
+        // 12 differs from 0 only in its last characters
+        10 => format!("pub fn main({}) -> u8 {{ a0 // first\n ^ {} }}", args.join(", "), names[1..].join(" ^ ")),
+        11 => format!("pub fn main({}) -> u8 {{ a0 // first ^ {}\n }}", args.join(", "), names[1..].join(" ^ ")),
+        12 => format!("pub fn main({}) -> u8 {{ {} ^ 1 }}", args.join(", "), names.join(" ^ ")),
         // ill-typed
         250 => format!("pub fn main({}) -> u8 {{ a0 + true }}", args.join(", ")),
         _ => format!("pub fn main({}) -> bool {{ a0 == a1 }}", args.join(", ")),
@@ -70,6 +76,9 @@ pub fn expected(template: u8, inputs: &[u8], k: u8) -> Option<u8> {
         2 => x & k,
         3 => (x & k) ^ k.wrapping_add(1),
         4 => a | inputs[0],
+        10 => x,
+        11 => inputs[0],
+        12 => x ^ 1,
         _ => return None,
     })
 }
